@@ -181,6 +181,19 @@ type Allocation struct {
 	slot int // index of the port block within the public IP's port range
 }
 
+// clone returns a copy that shares no memory with the manager's own record. Callers get
+// clones only: the manager searches free slots and releases by the fields of its records
+// (PoolIndex, slot), and the public address slice is the pool entry's.
+func (a *Allocation) clone() *Allocation {
+	if a == nil {
+		return nil
+	}
+	c := *a
+	c.PrivateIP = append(net.IP(nil), a.PrivateIP...)
+	c.PublicIP = append(net.IP(nil), a.PublicIP...)
+	return &c
+}
+
 // ManagerConfig configures the NAT manager
 type ManagerConfig struct {
 	Interface          string
@@ -344,7 +357,7 @@ func (m *Manager) AddPublicIP(ip net.IP) error {
 	maxSubs := totalPorts / m.portsPerSubscriber
 
 	entry := PoolEntry{
-		PublicIP:       ip4,
+		PublicIP:       append(net.IP(nil), ip4...), // the caller keeps its slice
 		TotalPorts:     totalPorts,
 		PortsPerSub:    m.portsPerSubscriber,
 		Subscribers:    0,
@@ -430,7 +443,7 @@ func (m *Manager) AllocateNAT(privateIP net.IP) (*Allocation, error) {
 	m.allocationMu.RLock()
 	if existing, ok := m.allocations[privKey]; ok {
 		m.allocationMu.RUnlock()
-		return existing, nil
+		return existing.clone(), nil
 	}
 	m.allocationMu.RUnlock()
 
@@ -443,7 +456,7 @@ func (m *Manager) AllocateNAT(privateIP net.IP) (*Allocation, error) {
 	m.allocationMu.RLock()
 	if existing, ok := m.allocations[privKey]; ok {
 		m.allocationMu.RUnlock()
-		return existing, nil
+		return existing.clone(), nil
 	}
 	m.allocationMu.RUnlock()
 
@@ -476,8 +489,8 @@ func (m *Manager) AllocateNAT(privateIP net.IP) (*Allocation, error) {
 	subscriberID := m.getOrCreateSubscriberID(privKey)
 
 	allocation := &Allocation{
-		PrivateIP:    ip4,
-		PublicIP:     selectedPool.PublicIP,
+		PrivateIP:    append(net.IP(nil), ip4...), // the caller keeps its slice
+		PublicIP:     append(net.IP(nil), selectedPool.PublicIP...),
 		PortStart:    portStart,
 		PortEnd:      portEnd,
 		PoolIndex:    poolIndex,
@@ -530,7 +543,7 @@ func (m *Manager) AllocateNAT(privateIP net.IP) (*Allocation, error) {
 		zap.Uint32("subscriber_id", subscriberID),
 	)
 
-	return allocation, nil
+	return allocation.clone(), nil
 }
 
 // freeSlotLocked returns the lowest port-block slot of pool entry idx that no live
@@ -879,6 +892,9 @@ func (m *Manager) GetPoolStats() []PoolEntry {
 
 	result := make([]PoolEntry, len(m.pool))
 	copy(result, m.pool)
+	for i := range result {
+		result[i].PublicIP = append(net.IP(nil), result[i].PublicIP...)
+	}
 	return result
 }
 
@@ -892,7 +908,7 @@ func (m *Manager) GetAllocation(privateIP net.IP) *Allocation {
 	m.allocationMu.RLock()
 	defer m.allocationMu.RUnlock()
 
-	return m.allocations[ipToKey(ip4)]
+	return m.allocations[ipToKey(ip4)].clone()
 }
 
 // GetEIMMapping returns the Endpoint-Independent Mapping for an internal endpoint
